@@ -201,9 +201,12 @@ def compensating_family(run, h, pts, batch, rng, M, tok, old, true_new, nonce, a
     dig_m = (digits(new[4] % 2 ** 63),) * 2
     plans = [("state_close", f, sgn, 3) for f in ("C", "T") for sgn in (-1, 1)]
     i, j = sorted(rng.sample(range(9), 2))
-    plans += [("digits_c", "T", -1, (i, j)), ("digits_m", "T", 1, (j % 8, 8))]
+    plans += [("digits_c", "T", -1, (i, j)), ("digits_m", "T", 1, (j % 8, 8)),
+              # the second halves of two shown digit signatures moved in opposite directions: each digit's pairing equation fails,
+              # their product (a verifier that multiplies the nine pairing checks together without random weights) does not
+              ("digits_c", "s2", -1, (j % 8, 8)), ("digits_m", "s2", -1, (i, j)), ("digits_m", "C", -1, (i, j))]
     if run.tier == "quick":
-        plans = [plans[0], plans[2], rng.choice(plans[1:2] + plans[3:4]), plans[4], plans[5]]
+        plans = [plans[0], plans[2], rng.choice(plans[1:2] + plans[3:4]), plans[4], plans[5], plans[6], plans[7], plans[8]]
     for where, f, sgn, arg in plans:
         d = rand_pay_draws(rng)
         delta = rng.choice([1, 990, rand_nz(rng)])
@@ -216,7 +219,7 @@ def compensating_family(run, h, pts, batch, rng, M, tok, old, true_new, nonce, a
                 p["csp"][f] = (p["csp"][f] + E) % Q
             else:
                 key = "cr" if where == "digits_c" else "mr"
-                E = M.rp["pk"]["g2"] * delta % Q
+                E = (M.rp["pk"]["g2"] * delta % Q) if f != "s2" else delta
                 a, b = arg
                 p[key][a][f] = (p[key][a][f] + sgn * E) % Q
                 p[key][b][f] = (p[key][b][f] + E) % Q
